@@ -175,3 +175,14 @@ fn compute_effects<E>(
 
     Ok((pc, total_gas, halt))
 }
+
+/// Verification hook (compiled only under `cfg(kani)`): exposes the private join step to the Kani harnesses in /verif.
+#[cfg(kani)]
+pub fn verif_compute_effects<E>(
+    memory: &mut Memory,
+    pc: usize,
+    halt: bool,
+    compute_results: Vec<(Gas, usize, Memory, bool)>,
+) -> OpResult<(usize, Gas, bool), E> {
+    compute_effects(memory, pc, halt, compute_results)
+}
